@@ -1,9 +1,8 @@
-import Mkdb.Model.Console
+import Mkdb.Proofs.Console
 /-!
 # C20 — the console submits exactly the statements that were typed
 
-Property theorems only.  (Session-level theorems — every typing of every statement list —
-are added from `Mkdb/Proofs/Console.lean` when present.)
+Property theorems only.  Helper lemmas and the session invariant are in `Mkdb/Proofs/Console.lean`.
 -/
 namespace Mkdb.Console
 
@@ -24,6 +23,40 @@ theorem C20_semicolon_in_quote (q0 r : Nat) : (qstep (.inq q0) r).2 = false ∧ 
   constructor
   · simp only [qstep]; split <;> (try split) <;> rfl
   · rfl
+
+/-- **C20.split**: a buffer made of well-formed statements (balanced quotes, the only ';'
+outside quotes is the last character) separated by blanks splits into exactly those
+statements, each without surrounding blanks — a ';' inside a literal does not split. -/
+theorem C20_split (w0 : List Nat) (items : List (List Nat × List Nat))
+    (hw0 : Blank w0) (hitems : ∀ p ∈ items, WFStmt p.1 ∧ Blank p.2) :
+    splitStatements (w0 ++ items.flatMap (fun p => p.1 ++ p.2)) =
+      (items.map (·.1), (items.getLast?.map (·.2)).getD w0) :=
+  split_wf w0 items hw0 hitems
+
+/-- **C20.session**: for every key sequence of printable keys and Enters (within the
+terminal's line limit) that ends with a submitting Enter, all submissions together, in
+order, are the quote-aware split of everything typed with each Enter read as one space. -/
+theorem C20_session (keys : List Nat)
+    (hvalid : ∀ k ∈ keys, k = 13 ∨ (isPrintable k = true ∧ k ≠ 13))
+    (hlen : keys.length ≤ maxLineLength)
+    (hlast : keys.getLast? = some 13)
+    (hrest : Blank (splitStatements (keys.map (fun k => if k = 13 then 32 else k))).2) :
+    (run {} keys).flatten = (splitStatements (keys.map (fun k => if k = 13 then 32 else k))).1 :=
+  run_eq_split keys hvalid hlen hlast hrest
+
+/-- **C20.submit**: however a list of well-formed statements is typed — blanks or line
+breaks between and (outside literals) inside them, several per line or one over many
+lines — the console hands the engine exactly those statements, once each, in order, with
+every literal intact. -/
+theorem C20_submit (keys : List Nat) (w0 : List Nat) (items : List (List Nat × List Nat))
+    (hvalid : ∀ k ∈ keys, k = 13 ∨ (isPrintable k = true ∧ k ≠ 13))
+    (hlen : keys.length ≤ maxLineLength)
+    (hlast : keys.getLast? = some 13)
+    (hw0 : Blank w0) (hitems : ∀ p ∈ items, WFStmt p.1 ∧ Blank p.2)
+    (htext : keys.map (fun k => if k = 13 then 32 else k) =
+      w0 ++ items.flatMap (fun p => p.1 ++ p.2)) :
+    (run {} keys).flatten = items.map (·.1) :=
+  submit_exact keys w0 items hvalid hlen hlast hw0 hitems htext
 
 def codes (s : String) : List Nat := s.toList.map Char.toNat
 
